@@ -82,3 +82,29 @@ Theorem C14_gen_active_defaults_in_range :
   (gen_active_computeParams (ROps exp_ round_) dim lam ccovn S_int).2 = ap_ptarg P.
 Proof. exact: gen_active_defaults_ok. Qed.
 Print Assumptions C14_gen_active_defaults_in_range.
+
+(* ---- StrategyActiveOnePlusLambda._rank1update: success rate and step size ---- *)
+Theorem C14_gen_active_rank1_scalar_is_model :
+  forall (R : rcfType) (exp_ round_ : R -> R) (P : aparams (T:=R)) psucc sigma p_succ,
+  gen_active_rank1_scalar (ROps exp_ round_) P psucc sigma p_succ =
+  active_rank1_scalar (ROps exp_ round_) P psucc sigma p_succ.
+Proof. exact: gen_active_rank1_scalar_eq. Qed.
+Print Assumptions C14_gen_active_rank1_scalar_is_model.
+
+(* the model's _rank1update moves (psucc, sigma) exactly as the regenerated slice of the current source says,
+   whatever branch its covariance code takes *)
+Theorem C14_gen_active_rank1_follows_regenerated_slice :
+  forall (R : rcfType) (exp_ round_ : R -> R) (P : aparams (T:=R)) st ind p_succ,
+  (as_psucc (rank1update (ROps exp_ round_) P st ind p_succ),
+   as_sigma (rank1update (ROps exp_ round_) P st ind p_succ)) =
+  gen_active_rank1_scalar (ROps exp_ round_) P (as_psucc st) (as_sigma st) p_succ.
+Proof. exact: gen_active_rank1_scalar_spec. Qed.
+Print Assumptions C14_gen_active_rank1_follows_regenerated_slice.
+
+Theorem C14_gen_active_psucc_in_01_sigma_pos :
+  forall (R : rcfType) (exp_ round_ : R -> R) (P : aparams (T:=R)) psucc sigma p_succ,
+  (forall x, 0 < exp_ x) -> 0 <= ap_cp P <= 1 -> 0 <= p_succ <= 1 -> 0 <= psucc <= 1 -> 0 < sigma ->
+  0 <= (gen_active_rank1_scalar (ROps exp_ round_) P psucc sigma p_succ).1 <= 1 /\
+  0 < (gen_active_rank1_scalar (ROps exp_ round_) P psucc sigma p_succ).2.
+Proof. exact: gen_active_rank1_scalar_range. Qed.
+Print Assumptions C14_gen_active_psucc_in_01_sigma_pos.
